@@ -45,6 +45,7 @@ extern void (*sched_on_wait_return)(int tid, struct env_wait *w, int n);
 extern long sched_max_points;
 /* 1 (default): a signal handler runs as one atomic scheduler step; 0: its lock operations are scheduling points */
 extern int sched_signal_atomic;
+extern int sched_signal_defer;  /* 1: a deliverable queued signal may be held back to a later scheduling point of its thread (cost 1 each) */
 /* 1: every kernel wait may be interrupted (EINTR) as an MC_FAULT choice */
 extern int sched_fault_eintr;
 /* optional: decide that the library's next pthread_create fails (return the errno, e.g. EAGAIN) */
